@@ -89,6 +89,49 @@ func genCases(seed int64, n, length int, scale string, multi bool, features stri
 			cases[i] = c
 			continue
 		}
+		if features == "directed" {
+			// hand-shaped micro-histories for situations the random generator reaches too rarely
+			mk := func(k string, now int, f func(o *drive.Op)) drive.Op {
+				o := drive.Op{K: k, L: "l1", Now: now}
+				f(&o)
+				o.Norm()
+				o.IKIn = 700 + len(c.Ops)
+				return o
+			}
+			acct := []string{"alice", "zed", "orders:1", "zz:9"}[i%4] // before and after "world" in every order
+			n := 3 + i%3
+			switch (i / 4) % 2 {
+			case 0:
+				// a non-forced revert whose reversal would overdraw a destination that has spent the funds, the
+				// reverted transaction also paying world: refused every time it is tried (the refusal must not depend
+				// on the order in which the accounts are examined)
+				c.Ops = append(c.Ops,
+					mk("create", 1, func(o *drive.Op) { o.Ps = []drive.Posting{{S: "world", D: "bob", As: "USD", N: n}} }),
+					mk("create", 2, func(o *drive.Op) {
+						o.Ps = []drive.Posting{{S: "bob", D: acct, As: "USD", N: n}, {S: acct, D: "world", As: "USD", N: 1}}
+					}),
+					mk("create", 3, func(o *drive.Op) { o.Ps = []drive.Posting{{S: acct, D: "carol", As: "USD", N: n - 1}} }))
+				for k := 0; k < 8; k++ {
+					c.Ops = append(c.Ops, mk("revert", 4+k/2, func(o *drive.Op) { o.ID = 2 }))
+				}
+			default:
+				// the same with two assets and world as a destination of the other asset
+				c.Ops = append(c.Ops,
+					mk("create", 1, func(o *drive.Op) {
+						o.Ps = []drive.Posting{{S: "world", D: "bob", As: "USD", N: n}, {S: "world", D: "bob", As: "EUR/2", N: 2}}
+					}),
+					mk("create", 2, func(o *drive.Op) {
+						o.Ps = []drive.Posting{{S: "bob", D: acct, As: "USD", N: n}, {S: "bob", D: "world", As: "EUR/2", N: 2}}
+					}),
+					mk("create", 3, func(o *drive.Op) { o.Ps = []drive.Posting{{S: acct, D: "carol", As: "USD", N: n}} }))
+				for k := 0; k < 8; k++ {
+					c.Ops = append(c.Ops, mk("revert", 4+k/2, func(o *drive.Op) { o.ID = 2 }))
+				}
+			}
+			c.Ledgers = []drive.CaseLedger{{Name: "l1", Bucket: "b1"}}
+			cases[i] = c
+			continue
+		}
 		if features == "strings" {
 			// ordinary histories whose metadata values need JSON escaping or are not ASCII (C09: the stored hash is
 			// computed by the SQL trigger from the memento column, the expected one by Log.ComputeHash)
